@@ -50,6 +50,7 @@ def main (args : List String) : IO UInt32 := do
   | ["C16c"] => runPure C16.crawlHandle; return 0
   | ["C16s"] => runPure C16.swapHandle; return 0
   | ["C14k"] => runPure C14.closeRaceHandle; return 0
+  | ["C14w"] => runPure C14.dualCloseHandle; return 0
   | ["C16cv"] => runPure C16.crawlVerdict; return 0
   | ["C15"] => runPure C15.handle; return 0
   | ["C15v"] => runPure C15.verdict; return 0
